@@ -17,6 +17,14 @@ for m in cfg.get("preimport", []):
         importlib.import_module(m)
     except Exception as ex:  # noqa: BLE001
         out["preimport_errors"][m] = type(ex).__name__
+if cfg.get("late_env"):
+    # the program imports a helper module of the package first and only THEN sets / removes PYSNARK_BACKEND
+    helper, value = cfg["late_env"]
+    importlib.import_module(helper)
+    if value is None:
+        os.environ.pop("PYSNARK_BACKEND", None)
+    else:
+        os.environ["PYSNARK_BACKEND"] = value
 try:
     import pysnark.runtime as rt
 except BaseException as ex:  # noqa: BLE001
